@@ -157,8 +157,8 @@ func (sr *SelectRelation) Materialize(aggRunner *AggRunner, catDir *catalog.Dire
 				if err2 != nil {
 					return nil, fmt.Errorf("non date predicate found for Epoch")
 				}
-				if sp.ContentsEnum.IsSet(INCLUSIVEMIN) {
-					val += 1
+				if !sp.ContentsEnum.IsSet(INCLUSIVEMIN) {
+					val += 1 // exclusive bound: the scan starts at the next instant
 				}
 				q.SetStart(time.Unix(val/nanosec, val%nanosec))
 			}
@@ -167,8 +167,8 @@ func (sr *SelectRelation) Materialize(aggRunner *AggRunner, catDir *catalog.Dire
 				if err2 != nil {
 					return nil, fmt.Errorf("non date predicate found for Epoch")
 				}
-				if sp.ContentsEnum.IsSet(INCLUSIVEMAX) {
-					val -= 1
+				if !sp.ContentsEnum.IsSet(INCLUSIVEMAX) {
+					val -= 1 // exclusive bound: the scan ends at the previous instant
 				}
 				q.SetEnd(time.Unix(val/nanosec, val%nanosec))
 			}
